@@ -6,14 +6,16 @@ ROOT = os.path.dirname(os.path.dirname(os.path.abspath(__file__)))
 sys.path.insert(0, ROOT)
 path = os.path.join(ROOT, 'known_findings.json')
 k = json.load(open(path))
-have = {f.get('id') for f in k['findings']}
+have = {(f.get('property'), f.get('id')) for f in k['findings']}
 fixed_ids = {f.split()[3] for f in k.get('fixed', []) if f.startswith('fixed: property=') and len(f.split()) > 3}
 for modname in sys.argv[1:]:
     mod = importlib.import_module(modname)
-    for e in mod.KNOWN:
-        if e['id'] in have:
+    known = mod.known_findings() if hasattr(mod, 'known_findings') else mod.KNOWN
+    for e in known:
+        prop = e.get('property') or (e.get('suite') if str(e.get('suite', '')).startswith('C') else None) or e['id'].split('-')[0]
+        if (prop, e['id']) in have:
             continue
-        prop = e.get('property') or e['id'].split('-')[0]
+        have.add((prop, e['id']))
         k['findings'].append({'id': e['id'], 'property': prop, 'kind': 'bounded', 'suite': modname,
                               'clause': e['clause'], 'match': e['match'], 'witness': e['inputs'], 'what': e['what']})
         print('added', e['id'])
